@@ -64,6 +64,9 @@ def run_forked(prop, case, hashseed, wall=CHILD_WALL_S):
             clock.install()
             env = Env(clock, hashseed)
             try:
+                if isinstance(case, dict) and case.get('knob_logging'):
+                    from gambatools.global_settings import GambaTools
+                    GambaTools.enable_logging = True       # ambient configuration, drawn per case (swarm style)
                 res = prop.run_case(case, env)
             except SimTimeout as e:
                 res = {'harness_error': 'uncaught SimTimeout: %s' % e}
@@ -143,11 +146,22 @@ def minimise(prop, case, cls, site, hashseed):
     return case, evals
 
 
+def gen_all(prop, pid, seed, rnd, tier):
+    """The round's cases plus the per-case ambient knobs every property shares."""
+    cases = prop.gen_cases(simrng.stream(seed, pid, 'round', rnd), tier, rnd)
+    if getattr(prop, 'GENERIC_LOGGING_KNOB', True):
+        kr = simrng.stream(seed, pid, 'knobs', rnd)
+        for c in cases:
+            if kr.random() < 0.2:
+                c['knob_logging'] = True
+    return cases
+
+
 def do_round(pid, seed, rnd, tier):
     prop = load_prop(pid)
     hashseed = os.environ.get('PYTHONHASHSEED', 'random')
     t0 = time.time()
-    cases = prop.gen_cases(simrng.stream(seed, pid, 'round', rnd), tier, rnd)
+    cases = gen_all(prop, pid, seed, rnd, tier)
     out = {'property': pid, 'round': rnd, 'hashseed': hashseed, 'cases': 0, 'ticks': 0, 'keys_nontrivial': set(),
            'scheds': set(), 'probes': {}, 'hist': {}, 'violations': [], 'harness': [], 'samples': [], 'digest': None}
     seen_v = {}
@@ -238,11 +252,11 @@ def main(argv):
         out = do_round(argv[2], int(argv[3]), int(argv[4]), argv[5])
     elif argv[1] == 'gen':
         prop = load_prop(argv[2])
-        cases = prop.gen_cases(simrng.stream(int(argv[3]), argv[2], 'round', int(argv[4])), argv[5], int(argv[4]))
+        cases = gen_all(prop, argv[2], int(argv[3]), int(argv[4]), argv[5])
         out = {'gen_digest': simrng.hexdigest(cases), 'n': len(cases)}
     elif argv[1] == 'cases':
         prop = load_prop(argv[2])
-        out = {'cases': prop.gen_cases(simrng.stream(int(argv[3]), argv[2], 'round', int(argv[4])), argv[5], int(argv[4]))}
+        out = {'cases': gen_all(prop, argv[2], int(argv[3]), int(argv[4]), argv[5])}
     elif argv[1] == 'serve':
         return serve(argv[2])
     elif argv[1] == 'replay':
